@@ -63,39 +63,54 @@ func runC13(c *Ctx) {
 	// R2 time-based checkpoint
 	if fn := c.fn("R2-time-based-checkpoint", "(*ls.DB).checkpointIfNeeded"); fn != nil {
 		const rule = "R2-time-based-checkpoint"
-		cks := callsTo(fn, nameIs("(*ls.DB).checkpointWithExecutor"))
+		cks := callSitesV(fn, nameIs("(*ls.DB).checkpointWithExecutor"))
 		c.floor(rule, len(cks), 3, "checkpoint calls in checkpointIfNeeded")
 		since := truthFact(vFieldPath("syncExecutor.state", "syncState.syncedSinceCheckpoint"), true, "exec.state.syncedSinceCheckpoint")
 		interval := cmpFact(vFieldLoad("DB.CheckpointInterval", nil), token.GTR, vConstInt(0), "db.CheckpointInterval > 0")
 		trunc := truthFact(vCall("(*ls.DB).exceedsTruncateThreshold", nil, vParam("origWALSize")), true, "origWALSize exceeds the truncate threshold")
 		minPages := cmpFact(vParam("newWALSize"), token.GEQ, vCall("ls.calcWALSize", nil, vFieldLoad("DB.MinCheckpointPageN", nil)), "newWALSize >= calcWALSize(MinCheckpointPageN)")
 		nTime := 0
+		modeOf := func(k VSite) ssa.Value { return namedArg(k.Call(), "mode") }
+		isMode := func(k VSite, m string) bool {
+			n := 0
+			for _, o := range origins(modeOf(k)) {
+				if _, isP := o.(*ssa.Parameter); isP {
+					continue
+				}
+				if !vConstStr(m)(o) {
+					return false
+				}
+				n++
+			}
+			return n > 0
+		}
 		for _, k := range cks {
-			mode := namedArg(k, "mode")
-			gT, nT := guardedBy(k, trunc)
-			gM, nM := guardedBy(k, minPages)
+			gT, nT := guardedSite(k, trunc)
+			gM, nM := guardedSite(k, minPages)
+			k.Desc = "time-based checkpoint"
 			switch {
 			case nT > 0 && gT:
 				// priority 1: passive attempt or forced truncate
-				ok := vConstStr("PASSIVE")(mode) || vConstStr("TRUNCATE")(mode)
-				c.check(ok, "R5-thresholds", fnName(fn)+": above the truncate threshold: PASSIVE attempt then TRUNCATE", c.pos(k), "mode constant", "unexpected mode")
+				ok := isMode(k, "PASSIVE") || isMode(k, "TRUNCATE")
+				c.check(ok, "R5-thresholds", fnName(fn)+": above the truncate threshold: PASSIVE attempt then TRUNCATE", c.pos(k.In), "mode constant", "unexpected mode")
 			case nM > 0 && gM:
-				c.check(vConstStr("PASSIVE")(mode), "R5-thresholds", fnName(fn)+": at MinCheckpointPageN a PASSIVE checkpoint is issued", c.pos(k), "PASSIVE", "unexpected mode")
+				c.check(isMode(k, "PASSIVE"), "R5-thresholds", fnName(fn)+": at MinCheckpointPageN a PASSIVE checkpoint is issued", c.pos(k.In), "PASSIVE", "unexpected mode")
 			default:
 				nTime++
-				c.requireGuard(rule, fn, Site{k, "time-based checkpoint"}, since)
-				c.requireGuard(rule, fn, Site{k, "time-based checkpoint"}, interval)
-				c.requireGuard(rule, fn, Site{k, "time-based checkpoint"}, cmpFact(vParam("newWALSize"), token.GTR, vCall("ls.calcWALSize", nil, vConstInt(1)), "newWALSize > one frame"))
-				c.check(vConstStr("PASSIVE")(mode), "R5-thresholds", fnName(fn)+": the time-based checkpoint is PASSIVE", c.pos(k), "PASSIVE", "unexpected mode")
+				c.requireGuardV(rule, fn, k, since)
+				c.requireGuardV(rule, fn, k, interval)
+				c.requireGuardV(rule, fn, k, cmpFact(vParam("newWALSize"), token.GTR, vCall("ls.calcWALSize", nil, vConstInt(1)), "newWALSize > one frame"))
+				c.check(isMode(k, "PASSIVE"), "R5-thresholds", fnName(fn)+": the time-based checkpoint is PASSIVE", c.pos(k.In), "PASSIVE", "unexpected mode")
 			}
 		}
 		c.check(nTime == 1, rule, fnName(fn)+": exactly one time-based checkpoint site", c.P.Pos(fn.Pos()), "1", fmt.Sprintf("%d", nTime))
 		// a forced TRUNCATE exists above the threshold
 		hasTrunc := false
 		for _, k := range cks {
-			if vConstStr("TRUNCATE")(namedArg(k, "mode")) {
+			if isMode(k, "TRUNCATE") {
 				hasTrunc = true
-				c.requireGuard("R5-thresholds", fn, Site{k, "TRUNCATE checkpoint"}, trunc)
+				k.Desc = "TRUNCATE checkpoint"
+				c.requireGuardV("R5-thresholds", fn, k, trunc)
 			}
 		}
 		c.check(hasTrunc, "R5-thresholds", fnName(fn)+": a TRUNCATE checkpoint is issued above the truncate threshold", c.P.Pos(fn.Pos()), "found", "the emergency brake is gone: the WAL can grow without bound while readers pin it")
